@@ -88,7 +88,9 @@ def build_cases(seed, n_plain, n_fmt):
         cases.append({"spec": spec, "writers": ["uvl", "afm", "json", "splot", "exp"], "digest": S.digest(spec),
                       "kind": "wide-group"})
     for fname, fmt in RT.FORMATS.items():
-        classes = fmt.classes()
+        # (long XOR / mixed chains are exponential in the dependency's CNF conversion, which SPLOT uses)
+        classes = [c for c in fmt.classes() if c[0] not in ("ctc:chain7-20", "ctc:chain17-70", "ctc:wide11-15")]
+        classes.append(("ctc:and-or-chain", inject.inj_ctc_chain(("AND", "OR"), (7, 30))))
         na = [c for c in classes if c[0] in NONASCII]
         for k in range(n_fmt):
             r = rand.rng(seed, "c12fmt", fname, k)
